@@ -392,127 +392,153 @@ def skipComment : Bytes → Nat → Bool → Option Bytes
     else if b == 40 then skipComment rest (depth + 1) false
     else skipComment rest depth false
 
+/-- digits to number -/
+def decimal (bs : Bytes) : Nat := bs.foldl (fun acc b => acc * 10 + (b.toNat - 48)) 0
+
+/-- `parse_weekday`: nothing if the text starts with a digit, else `Www,` and white space -/
+def rfcWeekday (inp : Bytes) : Option Bytes :=
+  match inp with
+  | [] => none
+  | b0 :: _ =>
+    if isDigitB b0 then some inp
+    else if inp.length < 4 then none
+    else match lower3 inp with
+      | none => none
+      | some (k, rest) =>
+        match indexOf3 weekdayNames k with
+        | none => none
+        | some _ =>
+          match rest with
+          | 44 :: r => needWs r
+          | _ => none
+
+/-- `parse_day`: one or two digits, then white space -/
+def rfcDay (inp : Bytes) : Option (Nat × Bytes) :=
+  match inp with
+  | [] => none
+  | d1 :: r1 =>
+    let two : Bool := match r1 with | d2 :: _ => isDigitB d2 | [] => false
+    let dayTxt := if two then [d1, r1.headD 0] else [d1]
+    let r := if two then r1.drop 1 else r1
+    if !dayTxt.all isDigitB then none
+    else
+      let day := decimal dayTxt
+      if day < 1 || day > 31 then none
+      else match needWs r with
+        | none => none
+        | some inp => some (day, inp)
+
+/-- `parse_month`: the index (0 = Jan), then white space -/
+def rfcMonth (inp : Bytes) : Option (Nat × Bytes) :=
+  match lower3 inp with
+  | none => none
+  | some (k, rest) =>
+    match indexOf3 monthNames k with
+    | none => none
+    | some mi =>
+      match needWs rest with
+      | none => none
+      | some inp => some (mi, inp)
+
+/-- `parse_year`: two to four digits, then white space -/
+def rfcYear (inp : Bytes) : Option (Nat × Bytes) :=
+  let yTxt := (inp.take 4).takeWhile isDigitB
+  if yTxt.length ≤ 1 then none
+  else
+    let yv := decimal yTxt
+    let year : Nat :=
+      if yTxt.length = 2 then (if yv ≤ 49 then yv + 2000 else yv + 1900)
+      else if yTxt.length = 3 then yv + 1900
+      else yv
+    match needWs (inp.drop yTxt.length) with
+    | none => none
+    | some inp => some (year, inp)
+
+/-- `hh:mm[:ss]`, then white space -/
+def rfcTime (inp : Bytes) : Option (Nat × Nat × Nat × Bytes) :=
+  match twoDigits? (inp.take 2) with
+  | none => none
+  | some hh =>
+    if hh > 23 then none
+    else match inp.drop 2 with
+      | 58 :: r =>
+        match twoDigits? (r.take 2) with
+        | none => none
+        | some mm =>
+          if mm > 59 then none
+          else
+            let r := r.drop 2
+            let secs : Option (Nat × Bytes) :=
+              match r with
+              | 58 :: r' =>
+                match twoDigits? (r'.take 2) with
+                | none => none
+                | some ss =>
+                  let ss := if ss = 60 then 59 else ss
+                  if ss > 59 then none else some (ss, r'.drop 2)
+              | _ => some (0, r)
+            match secs with
+            | none => none
+            | some (ss, r) =>
+              match needWs r with
+              | none => none
+              | some inp => some (hh, mm, ss, inp)
+      | _ => none
+
+/-- `parse_offset`: `+hhmm` / `-hhmm` or an obsolete zone name -/
+def rfcOffset (inp : Bytes) : Option (Int × Bytes) :=
+  match inp with
+  | [] => none
+  | s :: r =>
+    if s == 43 || s == 45 then
+      if r.length < 4 then none
+      else match twoDigits? (r.take 2), twoDigits? ((r.drop 2).take 2) with
+        | some oh, some om =>
+          if oh > 25 || om > 59 then none
+          else
+            let v : Int := (oh * 3600 + om * 60 : Nat)
+            some ((if s == 45 then -v else v), r.drop 4)
+        | _, _ => none
+    else obsoleteZone inp
+
+/-- after the zone: white space, one optional comment, white space, end of input -/
+def rfcTail (r : Bytes) : Bool :=
+  let r := skipWs r
+  let tail : Option Bytes :=
+    match r with
+    | [] => some []
+    | 40 :: r' => (skipComment r' 1 false).map skipWs
+    | _ => some r
+  match tail with
+  | some [] => true
+  | _ => false
+
 def parseRfc2822 (input : Bytes) : Option Time :=
   if input.isEmpty then none
-  else
-    let inp := skipWs input
-    match inp with
-    | [] => none
-    | b0 :: _ =>
-      -- weekday
-      let afterWd : Option Bytes :=
-        if isDigitB b0 then some inp
-        else if inp.length < 4 then none
-        else match lower3 inp with
-          | none => none
-          | some (k, rest) =>
-            match indexOf3 weekdayNames k with
-            | none => none
-            | some _ =>
-              match rest with
-              | 44 :: r => needWs r
-              | _ => none
-      match afterWd with
+  else match rfcWeekday (skipWs input) with
+    | none => none
+    | some inp =>
+      match rfcDay inp with
       | none => none
-      | some inp =>
-        -- day: one or two digits
-        match inp with
-        | [] => none
-        | d1 :: r1 =>
-          let (dayTxt, r) : Bytes × Bytes :=
-            match r1 with
-            | d2 :: r2 => if isDigitB d2 then ([d1, d2], r2) else ([d1], r1)
-            | [] => ([d1], r1)
-          if !dayTxt.all isDigitB then none
-          else
-            let day := dayTxt.foldl (fun acc b => acc * 10 + (b.toNat - 48)) 0
-            if day < 1 || day > 31 then none
-            else match needWs r with
-              | none => none
-              | some inp =>
-                -- month
-                match lower3 inp with
+      | some (day, inp) =>
+        match rfcMonth inp with
+        | none => none
+        | some (mi, inp) =>
+          match rfcYear inp with
+          | none => none
+          | some (year, inp) =>
+            match rfcTime inp with
+            | none => none
+            | some (hh, mm, ss, inp) =>
+              if year > 9999 || day > daysInMonth year (mi + 1) then none
+              else match rfcOffset inp with
                 | none => none
-                | some (k, rest) =>
-                  match indexOf3 monthNames k with
-                  | none => none
-                  | some mi =>
-                    match needWs rest with
-                    | none => none
-                    | some inp =>
-                      -- year: 2..4 digits
-                      let yTxt := (inp.take 4).takeWhile isDigitB
-                      if yTxt.length ≤ 1 then none
-                      else
-                        let yv := yTxt.foldl (fun acc b => acc * 10 + (b.toNat - 48)) 0
-                        let year : Nat :=
-                          if yTxt.length = 2 then (if yv ≤ 49 then yv + 2000 else yv + 1900)
-                          else if yTxt.length = 3 then yv + 1900
-                          else yv
-                        match needWs (inp.drop yTxt.length) with
-                        | none => none
-                        | some inp =>
-                          -- hh:mm[:ss]
-                          match twoDigits? (inp.take 2) with
-                          | none => none
-                          | some hh =>
-                            if hh > 23 then none
-                            else match inp.drop 2 with
-                              | 58 :: r =>
-                                match twoDigits? (r.take 2) with
-                                | none => none
-                                | some mm =>
-                                  if mm > 59 then none
-                                  else
-                                    let r := r.drop 2
-                                    let secs : Option (Nat × Bytes) :=
-                                      match r with
-                                      | 58 :: r' =>
-                                        match twoDigits? (r'.take 2) with
-                                        | none => none
-                                        | some ss =>
-                                          let ss := if ss = 60 then 59 else ss
-                                          if ss > 59 then none else some (ss, r'.drop 2)
-                                      | _ => some (0, r)
-                                    match secs with
-                                    | none => none
-                                    | some (ss, r) =>
-                                      match needWs r with
-                                      | none => none
-                                      | some inp =>
-                                        if year > 9999 || day > daysInMonth year (mi + 1) then none
-                                        else
-                                          -- offset
-                                          let off : Option (Int × Bytes) :=
-                                            match inp with
-                                            | [] => none
-                                            | s :: r =>
-                                              if s == 43 || s == 45 then
-                                                if r.length < 4 then none
-                                                else match twoDigits? (r.take 2), twoDigits? ((r.drop 2).take 2) with
-                                                  | some oh, some om =>
-                                                    if oh > 25 || om > 59 then none
-                                                    else
-                                                      let v : Int := (oh * 3600 + om * 60 : Nat)
-                                                      some ((if s == 45 then -v else v), r.drop 4)
-                                                  | _, _ => none
-                                              else obsoleteZone inp
-                                          match off with
-                                          | none => none
-                                          | some (off, r) =>
-                                            let r := skipWs r
-                                            let tail : Option Bytes :=
-                                              match r with
-                                              | [] => some []
-                                              | 40 :: r' => (skipComment r' 1 false).map skipWs
-                                              | _ => some r
-                                            match tail with
-                                            | some [] =>
-                                              let ts := daysFromCivil year (mi + 1) day * 86400 + ((hh * 3600 + mm * 60 + ss : Nat) : Int) - off
-                                              if ts < tsMin ∨ ts > tsMax then none
-                                              else some { seconds := ts, offset := off, minus := decide (off < 0) }
-                                            | _ => none
-                              | _ => none
+                | some (off, r) =>
+                  if !rfcTail r then none
+                  else
+                    let ts := daysFromCivil year (mi + 1) day * 86400 + ((hh * 3600 + mm * 60 + ss : Nat) : Int) - off
+                    if ts < tsMin ∨ ts > tsMax then none
+                    else some { seconds := ts, offset := off, minus := decide (off < 0) }
 
 /-! ### the rest of `parse` -/
 
